@@ -478,6 +478,67 @@ def gen_conc(rng):
             "klass": "conc-honest" if allhonest else "conc-mixed"}
 
 
+ODD_DIRS = ["models[v2]", "[1]", "*", "?", "{a,b}", "back\\slash", "with space", "m\u00f6d\u00e8ls\u2603", "dot.", "x" * 200, "a[b", "**"]
+
+
+def gen_bytes(seed, n):
+    """the harness's verifGen: SHA-256("verif-<seed>") repeated up to n bytes"""
+    blk = hashlib.sha256(("verif-%d" % seed).encode()).digest()
+    return (blk * (n // 32 + 1))[:n]
+
+
+def gen_large_hist(rng, k):
+    """blobs around plausible size thresholds (64 KiB, 1 MiB, 4 MiB; content generated on both sides): a writer that dies at a
+    sampled write boundary (or Read boundary) with an honest / flipped / short / long source, then an honest Put of the same
+    digest and a Get.  Monitored only (digest and size of every blob file after every operation)."""
+    n = [65536, 65537, 1 << 20, (1 << 20) + 1, (1 << 20) - 1, 4 << 20, 100000, 3 << 20][k % 8]
+    seed = rng.randrange(1000)
+    content = gen_bytes(seed, n)
+    d = sha(content)
+    chunk = rng.choice([32768, 32768, 8192])
+    nch = (n + chunk - 1) // chunk
+    ops = []
+    for _ in range(rng.randint(1, 2)):
+        kind = rng.choice(["honest", "flip", "flip-last", "short", "long"])
+        g = {"seed": seed, "len": n, "chunk": chunk, "flip": -1, "cut": -1, "extra": 0}
+        if kind == "flip":
+            g["flip"] = rng.randrange(n)
+        elif kind == "flip-last":
+            g["flip"] = n - 1
+        elif kind == "short":
+            g["cut"] = rng.randrange(1, n)
+        elif kind == "long":
+            g["extra"] = rng.randint(1, 5)
+        op = {"op": "put", "d": d, "size": n, "src": {"gen": g}, "k": kind}
+        r = rng.random()
+        if r < 0.6:
+            op["wcrash"] = rng.choice([1, 2, nch, nch, rng.randint(1, nch), max(1, nch - 1)])
+        elif r < 0.85:
+            op["crash"] = rng.choice([1, 2, rng.randint(1, nch + 1)])
+        ops.append(op)
+        ops.append({"op": "get", "d": d})
+        ops.append({"op": "put", "d": d, "size": n, "src": {"gen": {"seed": seed, "len": n, "chunk": chunk, "flip": -1, "cut": -1, "extra": 0}}, "k": "honest-after"})
+        ops.append({"op": "get", "d": d})
+    return {"kind": "hist", "large": True, "pool": [], "digests": [d], "sizes": {d: n}, "ops": ops, "klass": "hist-large", "clock": "normal"}
+
+
+def monitor_large(c, o):
+    out = []
+    for i, (op, st) in enumerate(zip(c["ops"], o["steps"])):
+        snap, res = st["snap"], st["res"]
+        for d, n in c["sizes"].items():
+            if snap["gets"].get(d, -1) == n:
+                got = (snap.get("bsum") or {}).get("sha256-" + d)
+                if not got or got[0] != d:
+                    out.append(({"kind": "hist", "class": "size-ok-content-bad", "large": True},
+                                "after op %d (%s %s%s) Get reports the %d-byte blob %s.. with its stored size but the file hashes to %s.." % (
+                                    i, op["op"], op.get("k", ""), " wcrash=%s" % op["wcrash"] if "wcrash" in op else (" crash=%s" % op["crash"] if "crash" in op else ""),
+                                    n, d[:8], (got or ["?"])[0][:8])))
+        if op["op"] == "put" and res.get("kind") == "ok" and snap["gets"].get(op["d"], -1) != op["size"]:
+            out.append(({"kind": "hist", "class": "put-ok-not-retrievable", "large": True}, "op %d: Put returned nil but Get reports %s" % (i, snap["gets"].get(op["d"]))))
+    return out
+
+
 def corpus_cases():
     out = []
     for p in sorted(glob.glob(os.path.join(vlib.VERIF, "corpus", "C08", "*.json"))):
@@ -541,6 +602,12 @@ def gen_cases(ctx):
         cases.append(gen_relink_hist(rng))
     for _ in range(nc):
         cases.append(gen_conc(rng))
+    for k in range(8 if ctx.quick() else 64):
+        cases.append(gen_large_hist(rng, k))
+    # a share of all histories runs in a cache directory with an odd but legal name
+    for c in cases:
+        if c.get("klass") != "corpus" and rng.random() < 0.3:
+            c["dirname"] = rng.choice(ODD_DIRS)
     return cases
 
 
@@ -758,7 +825,7 @@ def render_conc(c, o):
 def render(c, o):
     if "panic" in o or "harness_error" in o or "steps" not in o:
         return "false"
-    if c.get("monitor_only"):
+    if c.get("monitor_only") or c.get("large"):
         return "true"
     if c["kind"] == "hist":
         if len(o["steps"]) != len(c["ops"]):
@@ -927,6 +994,8 @@ def monitor(c, o):
         return [({"class": "panic"}, "DiskCache panicked: %s" % o["panic"])]
     if "steps" not in o:
         return []
+    if c.get("large"):
+        return monitor_large(c, o)
     return monitor_hist(c, o) if c["kind"] == "hist" else monitor_conc(c, o)
 
 
@@ -956,7 +1025,7 @@ def nontrivial(c, o):
     if "steps" not in o:
         return False
     if c["kind"] == "hist":
-        return any(st["snap"]["blobs"] for st in o["steps"]) and len(c["ops"]) >= 3
+        return any(st["snap"]["blobs"] or st["snap"].get("bsum") for st in o["steps"]) and len(c["ops"]) >= 3
     return len(set(c["sched"])) >= 2
 
 
